@@ -51,7 +51,7 @@ def make_circuit(c):
             elif w >= 2 and gi % 2 == 0:
                 out.append(CNOT(0, w - 1))
             else:
-                out.append([X, RX(0.3), RZ(1.1)][gi % 3](gi % w if w > 1 else 0))
+                out.append([X, RX(0.3), RZ(1.1)][gi % 3]((gi - 1) % w))     # the first gate sits on qubit 0 whatever the width: equal operation lists on different registers
         else:
             out.append(MultiPhaseOperation(tuple(0.1 * (i + 1) for i in range(2**w))))
     return Circuit(out, n_qubits=w)
